@@ -1429,9 +1429,12 @@ impl<'a> Parser<'a> {
             return false;
         }
 
-        // Look ahead to find comma before ParenEnd
+        // Look ahead to find comma before the matching ParenEnd. The first element
+        // of a tuple may be arbitrarily long, so the scan is not bounded by
+        // MAX_LOOKAHEAD; it stops at the matching parenthesis or at the end of input.
         let mut depth = 0;
-        for i in 1..MAX_LOOKAHEAD {
+        let mut i = 1;
+        loop {
             match self.peek_ahead(i) {
                 Some(TokenKind::ParenBegin) => depth += 1,
                 Some(TokenKind::ParenEnd) => {
@@ -1441,11 +1444,11 @@ impl<'a> Parser<'a> {
                     depth -= 1;
                 }
                 Some(TokenKind::Comma) if depth == 0 => return true,
-                None => return false,
+                None | Some(TokenKind::Eof) => return false,
                 _ => {}
             }
+            i += 1;
         }
-        false
     }
 
     /// Check if current position is a record expression
